@@ -333,3 +333,19 @@ package git
 //gvc:  sink RemoveReference requires own: strid(arg0) == strid(opts.Branch)
 //gvc:  sink SetReference requires saved: arg0 == head
 //gvc:end
+
+// Property C31, checkout side. With core.autocrlf=true git converts a blob's
+// LF to CRLF only when will_convert_lf_to_crlf says so: the content is not
+// binary and has no CR at all (convert.c: "any CR or CRLF line endings: do not
+// touch it"). Call-site obligation on the converter: the statistics are those
+// of the whole blob about to be copied (no NUL, no CR anywhere in it) and
+// are not binary by git's ratio rule.
+//gvc:func (*Worktree).copyObjectToWorktree
+//gvc:  props C31
+//gvc:  theory int
+//gvc:  opt coarse
+//gvc:  opt frame args
+//gvc:  requires nn: object != nil && cfg != nil
+//gvc:  sink NewCRLFWriter requires asgit: !spec_is_binary(stat.NUL, stat.LoneCR, stat.Printable, stat.NonPrintable) && stat.LoneCR == 0 && stat.CRLF == 0
+//gvc:  sink NewCRLFWriter requires whole: src.#pos == 0 && forall(k, 0, src.#n, src.#data[k] != 0 && src.#data[k] != '\r')
+//gvc:end
